@@ -91,9 +91,17 @@ type Interp struct {
 	observes    []string
 	pathNotes   []string
 
+	stack      []*ssa.Function
+	model      Model
+	modelMemo  map[*Term]*Term
+	modelNeeds *Term
+	varRange   map[*Term][2]int64
+	ivMemo     map[*Term][3]int64
+
 	// global
-	work [][]int
-	rep  *Report
+	work   [][]int
+	shared *sharedWork
+	rep    *Report
 }
 
 func (it *Interp) info(fn *ssa.Function) *fnInfo {
@@ -315,6 +323,11 @@ func (it *Interp) addPC(c *Term) {
 		return
 	}
 	it.pc = append(it.pc, c)
+	if it.model != nil {
+		if v := it.tb.Eval(c, it.model, it.modelMemo); v == nil || !v.IsConst() || !v.B {
+			it.model = nil
+		}
+	}
 	it.known[c] = true
 	if c.Op == "not" {
 		it.known[c.Args[0]] = false
@@ -395,24 +408,49 @@ func (it *Interp) decide(c *Term) bool {
 	if v, ok := it.lookupKnown(c); ok {
 		return v
 	}
+	if v, ok := it.intervalDecide(c); ok {
+		return v
+	}
 	var choice bool
 	if d := it.nextDecision(); d >= 0 {
 		choice = d == 1
 	} else {
-		rT := it.check(c)
-		if rT == Unsat {
-			choice = false
-		} else {
-			rF := it.check(it.tb.Not(c))
-			if rF == Unsat {
-				choice = true
+		side, have := it.evalModel(c)
+		if have {
+			// the cached model witnesses `side`; only the other side needs a query
+			var other *Term
+			if side {
+				other = it.tb.Not(c)
 			} else {
-				if rT == Unknown || rF == Unknown {
+				other = c
+			}
+			r := it.check(other)
+			if r == Unsat {
+				choice = side
+			} else {
+				if r == Unknown {
 					it.rep.UnknownBranches++
 				}
-				alt := append(append([]int{}, it.decisions...), 0)
-				it.work = append(it.work, alt)
-				choice = true
+				alt := append(append([]int{}, it.decisions...), b2i(!side))
+				it.pushWork(alt)
+				choice = side
+			}
+		} else {
+			rT := it.checkModel(c)
+			if rT == Unsat {
+				choice = false
+			} else {
+				rF := it.check(it.tb.Not(c))
+				if rF == Unsat {
+					choice = true
+				} else {
+					if rT == Unknown || rF == Unknown {
+						it.rep.UnknownBranches++
+					}
+					alt := append(append([]int{}, it.decisions...), 0)
+					it.pushWork(alt)
+					choice = true
+				}
 			}
 		}
 	}
@@ -427,6 +465,55 @@ func (it *Interp) decide(c *Term) bool {
 	return choice
 }
 
+func b2i(b bool) int {
+	if b {
+		return 1
+	}
+	return 0
+}
+
+func (it *Interp) pushWork(p []int) {
+	if it.shared != nil {
+		it.shared.push(p)
+		return
+	}
+	it.work = append(it.work, p)
+}
+
+// evalModel evaluates c under the cached model of the current path condition (if still valid).
+func (it *Interp) evalModel(c *Term) (bool, bool) {
+	if it.model == nil {
+		return false, false
+	}
+	v := it.tb.Eval(c, it.model, it.modelMemo)
+	if v == nil || !v.IsConst() {
+		return false, false
+	}
+	return v.B, true
+}
+
+// checkModel is check(extra) that also caches the model on sat.
+func (it *Interp) checkModel(extra *Term) Result {
+	lits := append(append([]*Term{}, it.pc...), extra)
+	vars := it.allVars(lits)
+	r, m := it.sv.Check(it.tb, lits, vars)
+	it.rep.BranchQueries++
+	if r == Sat && m != nil {
+		complete := true
+		for _, v := range vars {
+			if m[v.Name] == nil {
+				complete = false
+			}
+		}
+		if complete {
+			it.model = m
+			it.modelMemo = map[*Term]*Term{}
+			it.modelNeeds = extra
+		}
+	}
+	return r
+}
+
 // choose makes an n-way nondeterministic choice (scheduler, map order); all alternatives are explored.
 func (it *Interp) choose(n int) int {
 	if n <= 1 {
@@ -438,56 +525,202 @@ func (it *Interp) choose(n int) int {
 	}
 	for k := 1; k < n; k++ {
 		alt := append(append([]int{}, it.decisions...), k)
-		it.work = append(it.work, alt)
+		it.pushWork(alt)
 	}
 	it.decisions = append(it.decisions, 0)
 	it.rep.Transitions++
 	return 0
 }
 
-// concretize turns a symbolic integer into a concrete one by forking over its feasible values.
+// concretize turns a symbolic integer into a concrete one by forking over its feasible values. The chosen
+// (or excluded) values are recorded in the decision log itself, so a prefix fully describes its path.
 func (it *Interp) concretize(t *Term) int64 {
 	if t.IsConst() {
 		return t.SInt64()
 	}
-	for tries := 0; tries < 4096; tries++ {
+	if lo, hi, ok := it.bounds(t); ok && lo == hi {
+		return lo
+	}
+	var excluded []int
+	for tries := 0; tries < 100000; tries++ {
 		if d := it.nextDecision(); d >= 0 {
-			// replay: the value was recorded as two decisions entries: marker(2) handled below
+			v := it.prefix[len(it.decisions)+1]
+			it.decisions = append(it.decisions, d, v)
+			vt := it.sameSortInt(t, v)
+			if d == 1 {
+				it.addPC(it.tb.Eq(t, vt))
+				return int64(v)
+			}
+			it.addPC(it.tb.Not(it.tb.Eq(t, vt)))
+			excluded = append(excluded, v)
+			continue
 		}
-		// ask the solver for a candidate value
 		v, ok := it.modelValue(t)
 		if !ok {
-			panic(pathEnd{"killed", "concretize: infeasible"})
+			panic(pathEnd{"killed", "concretize: no (further) feasible value"})
 		}
-		if it.decide(it.tb.Eq(t, v)) {
-			return v.SInt64()
-		}
+		iv := int(v.SInt64())
+		alt := append(append([]int{}, it.decisions...), 0, iv)
+		it.pushWork(alt)
+		it.decisions = append(it.decisions, 1, iv)
+		it.addPC(it.tb.Eq(t, v))
+		it.rep.Transitions++
+		return int64(iv)
 	}
 	it.outside("concretize: too many values")
 	return 0
 }
 
 // modelValue returns a feasible constant value for t under the current path condition.
-// During prefix replay the same sequence of candidates must be produced; candidates are therefore
-// cached per (path-condition length, term) in the decision-independent cache keyed by the prefix.
 func (it *Interp) modelValue(t *Term) (*Term, bool) {
-	key := fmt.Sprintf("%v|%d", it.decisions, t.ID)
-	if v, ok := it.rep.modelCache[key]; ok {
-		return v, v != nil
+	if it.model != nil {
+		if v := it.tb.Eval(t, it.model, it.modelMemo); v != nil && v.IsConst() {
+			return v, true
+		}
 	}
 	fresh := it.tb.Var(fmt.Sprintf("$c%d", t.ID), t.S)
 	lits := append(append([]*Term{}, it.pc...), it.tb.Same(fresh, t))
-	r, m := it.sv.Check(it.tb, lits, []*Term{fresh})
+	vars := append(it.allVars(lits))
+	r, m := it.sv.Check(it.tb, lits, vars)
 	it.rep.BranchQueries++
 	if r != Sat || m[fresh.Name] == nil {
-		it.rep.modelCache[key] = nil
 		if r == Unknown {
 			panic(pathEnd{"inconclusive", "concretize: solver unknown"})
 		}
 		return nil, false
 	}
-	it.rep.modelCache[key] = m[fresh.Name]
+	it.model = m
+	it.modelMemo = map[*Term]*Term{}
 	return m[fresh.Name], true
+}
+
+// ---------- cheap interval reasoning over integer terms ----------
+
+const ivLimit = int64(1) << 40
+
+func (it *Interp) bounds(t *Term) (int64, int64, bool) {
+	if t.S.K != SBV && t.S.K != SInt {
+		return 0, 0, false
+	}
+	if t.IsConst() {
+		v := t.SInt64()
+		return v, v, true
+	}
+	if r, ok := it.ivMemo[t]; ok {
+		return r[0], r[1], r[2] == 1
+	}
+	lo, hi, ok := it.bounds1(t)
+	if ok && (lo < -ivLimit || hi > ivLimit) {
+		ok = false
+	}
+	it.ivMemo[t] = [3]int64{lo, hi, int64(b2i(ok))}
+	return lo, hi, ok
+}
+
+func (it *Interp) bounds1(t *Term) (int64, int64, bool) {
+	switch t.Op {
+	case "var":
+		if r, ok := it.varRange[t]; ok {
+			return r[0], r[1], true
+		}
+	case "ite":
+		a0, a1, ok1 := it.bounds(t.Args[1])
+		b0, b1, ok2 := it.bounds(t.Args[2])
+		if ok1 && ok2 {
+			return min(a0, b0), max(a1, b1), true
+		}
+	case "bvadd", "+":
+		a0, a1, ok1 := it.bounds(t.Args[0])
+		b0, b1, ok2 := it.bounds(t.Args[1])
+		if ok1 && ok2 && (t.S.K == SInt || t.S.W == 64) {
+			return a0 + b0, a1 + b1, true
+		}
+	case "bvsub", "-":
+		if len(t.Args) == 2 {
+			a0, a1, ok1 := it.bounds(t.Args[0])
+			b0, b1, ok2 := it.bounds(t.Args[1])
+			if ok1 && ok2 && (t.S.K == SInt || t.S.W == 64) {
+				return a0 - b1, a1 - b0, true
+			}
+		}
+	case "bvmul", "*":
+		a0, a1, ok1 := it.bounds(t.Args[0])
+		b0, b1, ok2 := it.bounds(t.Args[1])
+		if ok1 && ok2 && (t.S.K == SInt || t.S.W == 64) {
+			c := []int64{a0 * b0, a0 * b1, a1 * b0, a1 * b1}
+			return min(c[0], c[1], c[2], c[3]), max(c[0], c[1], c[2], c[3]), true
+		}
+	case "zero_extend":
+		a0, a1, ok := it.bounds(t.Args[0])
+		if ok && a0 >= 0 {
+			return a0, a1, true
+		}
+		if t.Args[0].S.W <= 32 {
+			return 0, int64(mask(t.Args[0].S.W)), true
+		}
+	case "sign_extend":
+		return it.bounds(t.Args[0])
+	}
+	if t.S.K == SBV && t.S.W <= 16 && t.Op == "var" {
+		return -(1 << uint(t.S.W-1)), int64(mask(t.S.W)), true
+	}
+	return 0, 0, false
+}
+
+// intervalDecide answers comparisons that the interval domain already settles.
+func (it *Interp) intervalDecide(c *Term) (bool, bool) {
+	neg := false
+	for c.Op == "not" {
+		c = c.Args[0]
+		neg = !neg
+	}
+	res := func(b bool) (bool, bool) { return b != neg, true }
+	switch c.Op {
+	case "and":
+		a, ok1 := it.intervalDecide(c.Args[0])
+		b, ok2 := it.intervalDecide(c.Args[1])
+		if (ok1 && !a) || (ok2 && !b) {
+			return res(false)
+		}
+		if ok1 && ok2 {
+			return res(true)
+		}
+	case "bvslt", "<", "bvsle", "<=":
+		if c.Args[0].S.K != SBV && c.Args[0].S.K != SInt {
+			return false, false
+		}
+		a0, a1, ok1 := it.bounds(c.Args[0])
+		b0, b1, ok2 := it.bounds(c.Args[1])
+		if !ok1 || !ok2 {
+			return false, false
+		}
+		strict := c.Op == "bvslt" || c.Op == "<"
+		if strict {
+			if a1 < b0 {
+				return res(true)
+			}
+			if a0 >= b1 {
+				return res(false)
+			}
+		} else {
+			if a1 <= b0 {
+				return res(true)
+			}
+			if a0 > b1 {
+				return res(false)
+			}
+		}
+	case "=":
+		if c.Args[0].S.K != SBV && c.Args[0].S.K != SInt {
+			return false, false
+		}
+		a0, a1, ok1 := it.bounds(c.Args[0])
+		b0, b1, ok2 := it.bounds(c.Args[1])
+		if ok1 && ok2 && (a1 < b0 || b1 < a0) {
+			return res(false)
+		}
+	}
+	return false, false
 }
 
 // ---------- operand access ----------
@@ -621,7 +854,13 @@ func (it *Interp) call(fn *ssa.Function, args []Value, env []Value) (result Valu
 	}
 	fr.block = fn.Blocks[0]
 	it.depth++
-	defer func() { it.depth-- }()
+	it.stack = append(it.stack, fn)
+	defer func() {
+		it.depth--
+		if len(it.stack) > 0 {
+			it.stack = it.stack[:len(it.stack)-1]
+		}
+	}()
 	return it.runFrame(fr, false)
 }
 
@@ -754,7 +993,11 @@ func (it *Interp) runDefers(fr *Frame) {
 }
 
 func (it *Interp) runtimePanic(msg string) {
-	panic(&goPanic{runtime: true, msg: "runtime error: " + msg})
+	var st []string
+	for i := len(it.stack) - 1; i >= 0 && len(st) < 4; i-- {
+		st = append(st, it.stack[i].String())
+	}
+	panic(&goPanic{runtime: true, msg: "runtime error: " + msg, stack: strings.Join(st, " < ")})
 }
 
 func (it *Interp) describe(v Value) string {
@@ -788,7 +1031,7 @@ func (it *Interp) invoke(recv Value, cc *ssa.CallCommon, args []Value) Value {
 	if ifc.T == nil {
 		it.runtimePanic("invalid memory address or nil pointer dereference (method call on nil interface)")
 	}
-	m := it.prog.LookupMethod(ifc.T, cc.Method.Pkg(), cc.Method.Name())
+	m := it.findMethod(ifc.T, cc.Method.Pkg(), cc.Method.Name())
 	if m == nil {
 		it.outside("no method %s on %s", cc.Method.Name(), ifc.T)
 	}
@@ -963,3 +1206,12 @@ func (it *Interp) typeAssert(x Iface, ta *ssa.TypeAssert) Value {
 }
 
 var _ = token.ADD
+
+// findMethod is a non-panicking method lookup (nil when T has no such method).
+func (it *Interp) findMethod(T types.Type, pkg *types.Package, name string) *ssa.Function {
+	sel := it.prog.MethodSets.MethodSet(T).Lookup(pkg, name)
+	if sel == nil {
+		return nil
+	}
+	return it.prog.MethodValue(sel)
+}
